@@ -974,6 +974,47 @@ theorem route_monotone {c : Config α} {route : List (Branch α)} (hacc : Accumu
   fun k hk => ⟨(route_distance_monotone hacc hd hlen).2 k hk,
     (route_time_monotone hacc ht hdel).2 k hk⟩
 
+/-- from consecutive elements to any two positions `k ≤ k'` -/
+theorem slot_mono_le {route : List (Branch α)} {j : Nat}
+    (hdef : ∀ k (hk : k < route.length), ∃ x, route[k].state[j]? = some x)
+    (hstep : ∀ k (hk : k + 1 < route.length) x y, route[k].state[j]? = some x →
+      route[k + 1].state[j]? = some y → x ≤ y) :
+    ∀ (d k : Nat) (hk' : k + d < route.length) (x y : α),
+      (route[k]'(by omega)).state[j]? = some x → route[k + d].state[j]? = some y → x ≤ y
+  | 0, k, hk', x, y, hx, hy => by
+    simp only [Nat.add_zero] at hy
+    rw [hx] at hy
+    cases hy
+    exact le_refl _
+  | d + 1, k, hk', x, y, hx, hy => by
+    obtain ⟨z, hz⟩ := hdef (k + d) (by omega)
+    exact le_trans (slot_mono_le hdef hstep d k (by omega) x z hx hz)
+      (hstep (k + d) (by omega) z y hz hy)
+
+/-- distance never decreases between any two positions of the route -/
+theorem route_distance_monotone_le {c : Config α} {route : List (Branch α)}
+    (hacc : Accumulates c route) {i : Nat} {fu : DistanceUnit} (hs : DistSlot c.feats i fu)
+    (hlen : ∀ er ∈ c.edges, 0 ≤ er.dist) :
+    ∀ (k k' : Nat) (hkk : k ≤ k') (hk' : k' < route.length) (x y : α),
+      (route[k]'(by omega)).state[i]? = some x → route[k'].state[i]? = some y → x ≤ y := by
+  intro k k' hkk hk' x y hx hy
+  obtain ⟨d, rfl⟩ := Nat.exists_eq_add_of_le hkk
+  obtain ⟨f, _, _, hsum⟩ := route_distance_is_sum hacc hs
+  exact slot_mono_le (fun k hk => ⟨_, hsum k hk⟩) (route_distance_monotone hacc hs hlen).2
+    d k hk' x y hx hy
+
+/-- time never decreases between any two positions of the route -/
+theorem route_time_monotone_le {c : Config α} {route : List (Branch α)}
+    (hacc : Accumulates c route) {t : Nat} {ftu : TimeUnit} (hs : TimeSlot c.feats t ftu)
+    (hdel : DelaysNonneg c.access) :
+    ∀ (k k' : Nat) (hkk : k ≤ k') (hk' : k' < route.length) (x y : α),
+      (route[k]'(by omega)).state[t]? = some x → route[k'].state[t]? = some y → x ≤ y := by
+  intro k k' hkk hk' x y hx hy
+  obtain ⟨d, rfl⟩ := Nat.exists_eq_add_of_le hkk
+  obtain ⟨f, _, hsum⟩ := route_time_is_sum hacc hs
+  exact slot_mono_le (fun k hk => ⟨_, hsum k hk⟩) (route_time_monotone hacc hs hdel).2
+    d k hk' x y hx hy
+
 /-! ### 5. The summary -/
 
 theorem prefixEdges_last (route : List (Branch α)) :
